@@ -57,7 +57,7 @@ def inv_keys(lc):
     return [('visited_keys_are_str', ForAll([x], Implies(lc.done[x], Val.is_S(x))))]
 
 
-@contract('Event.send', qual='edzed.block:Event.send', params={'source': Ref('Block')}, modifies=('_output', '_event_active'),
+@contract('Event.send', qual='edzed.block:Event.send', params={'source': Ref('Block')}, modifies=DELIVERY,
           self_cls='Event', traced=lambda a, st: rec('send', to_val(a['self'], st), to_val(a['source'], st), kw=a['data'].arr))
 def _send(c):
     me, src = c.z('self'), c.z('source')
@@ -66,7 +66,9 @@ def _send(c):
         # what a sender may rely on (guarantee G_send, proved for set_output/eval_block under C02/C01):
         # delivery never re-assigns the sender's own output (A-C02) and may fail with a delivery error
         c.ensures('source_output_kept', c.post('_output', src) == c.pre('_output', src))
-        c.raises('DeliveryError', unchanged=False, ensures=lambda post, exc: [post.f('_output', src) == c.pre('_output', src)])
+        c.ensures('queues_only_grow', queues_only_grow(c.S, c.T))
+        c.raises('DeliveryError', unchanged=False, ensures=lambda post, exc: [post.f('_output', src) == c.pre('_output', src),
+                                                                              queues_only_grow(c.S, post)])
         return
     dest = c.pre('_dest', me)
     F, n = c.pre('_filters', me)
